@@ -32,7 +32,7 @@ def recording_edges(fn, prov):
     """Edges a call must cross for the operation to be 'recording' in fn."""
     local = "::local_span::LocalSpan::" in fn.path
     e = set(discr_cond_edges(fn, prov, REC_TY_LOCAL if local else REC_TY, ["Some"]))
-    e |= bool_cond_edges(fn, prov, lambda o: o.path and o.path[-1] == ".is_sampled", True)
+    e |= bool_cond_edges(fn, prov, lambda o: o.path and o.path[-1] == ".is_sampled", True, no_constant_way=True)
     # is_some()/is_none() forms of the same tests
     e |= bool_cond_edges(fn, prov, lambda o: any(v[0] == "call" and re.search(r"Option::<T>::is_some$", v[1]) for v in o.via)
                          and o.path and o.path[-1] in (".inner",), True) if not local else set()
